@@ -82,6 +82,7 @@ def cluster(family, n, inst, dtype, timer, r, *, byz=(), start=None, prop=None, 
     return [{"ev": "Cluster", "family": family, "n": n, "slot": slot_for(r, n, inst, dtype), "dtype": dtype, "timer": timer,
              "byz": list(byz), "start": start, "prop": prop, "lat": lat if lat is not None else lat_matrix(r, n, 10, 200),
              "crashes": list(crashes), "drops": list(drops), "byzplan": byzplan or {}, "timely": timely, "expire": expire,
+             "rotate": True,   # members are logged relative to the required leader rotation (Inst = 0 in every trace)
              # what the round timers are REQUIRED to be (core/consensus/timer: linear 1 s per round, +500 ms for proposals)
              "roundms": 1000, "extrams": 500 if dtype == "proposer" else 0,
              "horizon": horizon or 1000 * (2 * (n + 4) + 2)}]
@@ -305,30 +306,88 @@ def mutators():
 
 
 # ----------------------------------------------------------------------------------------------------------------------
+def _account(o, schedules, traces, v, tag):
+    """What vlib.conformance books for an executed and validated batch."""
+    o.schedules += len(schedules)
+    o.traces += len(traces)
+    o.trace_events += sum(len(t) for t in traces)
+    o.trace_states += v.states
+    for t in traces:
+        o.distinct_keys.add(vlib.digest(t))
+    for t in traces[:2]:
+        if len(o.samples) < 6:
+            o.samples.append({"family": FAMILY, "tag": tag, "trace": t[:40]})
+
+
 def stage(o, tier, seed, node_traces=True, probe_finding=True):
-    """Run the cluster tier as an extra stage of an existing check (Outcome `o` collects coverage and violations)."""
+    """Run the cluster tier as an extra stage of an existing check (Outcome `o` collects coverage and violations).
+
+    One executor run; then the cluster traces (QBFTClusterTrace), the member transcripts (QBFTNodeTrace, with its binding
+    self-tests) and the probe of the known finding are validated side by side.  Whatever is rejected goes through
+    vlib.conformance (re-execution in a fresh process, deviation cfg, replay file) like in every other check."""
+    from concurrent.futures import ThreadPoolExecutor
     t0 = time.time()
     sch = schedules(tier, seed)
-    if probe_finding:
-        sch = sch + [probe()]
-    vlib.conformance(o, FAMILY, "QBFTClusterTrace", cfg_of, PKG, sch, tag="cluster", chunk=40, exec_timeout=600, tv_timeout=600,
-                     dev_cfgs=[(FINDING, cfg_of_dev)], max_report=4)
-    if probe_finding and not o.violations and not any(k == FINDING for k, _ in o.known):
-        log("note: the %s probe no longer reproduces (the finding may have been repaired)" % FINDING)
-    tr = vlib.split_traces(vlib.read_ndjson(os.path.join(vlib.workdir(o.pid), "trace_cluster.ndjson")))
-    if not o.violations:
-        vlib.binding_selftest(o, FAMILY, "QBFTClusterTrace", cfg_of, tr, mutators())
-    dec = sum(1 for t in tr for e in t if e.get("ev") == "Decide")
+    batch = sch + ([probe()] if probe_finding else [])
+    traces, sids, wall = vlib.run_schedules(o.pid, PKG, "TestExec", batch, tag="cluster", timeout=600)
+    if len(traces) != len(batch) or sids != list(range(len(batch))):
+        raise vlib.Infra("executor returned %d traces for %d schedules" % (len(traces), len(batch)))
+    main_tr, probe_tr = traces[:len(sch)], traces[len(sch):]
+    side = vlib.Outcome(o.pid, o.tier, o.seed)      # filled by the member-transcript thread, merged below
+
+    def members():
+        import conscluster_node
+        conscluster_node.validate(side, main_tr, sch)
+
+    def probing():
+        return (vlib.validate_traces(o.pid, FAMILY, "QBFTClusterTrace", cfg_of, probe_tr, timeout=600),
+                vlib.validate_traces(o.pid, FAMILY, "QBFTClusterTrace", cfg_of_dev, probe_tr, timeout=600))
+
+    with ThreadPoolExecutor(max_workers=3) as ex:
+        fm = ex.submit(members) if node_traces else None
+        fp = ex.submit(probing) if probe_tr else None
+        v = vlib.validate_traces(o.pid, FAMILY, "QBFTClusterTrace", cfg_of, main_tr, chunk=40, timeout=600)
+        log("[%s] %s/cluster: %d schedules -> %d traces (%d events) executed in %.1fs, validated in %.1fs: %d accepted, %d rejected"
+            % (o.pid, FAMILY, len(sch), len(main_tr), sum(len(t) for t in main_tr), wall, v.wall, len(v.accepted), len(v.rejected)))
+        if v.rejected:
+            # the standard treatment (reproduction, known-finding matching, replay files) for the rejected schedules only
+            bad = sorted({i for i, _, _ in v.rejected})[:6]
+            _account(o, [sch[i] for i in range(len(sch)) if i not in bad], [main_tr[i] for i in range(len(sch)) if i not in bad], v, "cluster")
+            vlib.conformance(o, FAMILY, "QBFTClusterTrace", cfg_of, PKG, [sch[i] for i in bad], tag="cluster_rejected",
+                             exec_timeout=600, tv_timeout=600, dev_cfgs=[(FINDING, cfg_of_dev)], max_report=4)
+        else:
+            _account(o, sch, main_tr, v, "cluster")
+            vlib.binding_selftest(o, FAMILY, "QBFTClusterTrace", cfg_of, main_tr, mutators())
+        if fp:
+            vp, vd = fp.result()
+            _account(o, batch[len(sch):], probe_tr, vp, "cluster_probe")
+            if not vp.rejected:
+                log("note: the %s probe no longer reproduces (the finding may have been repaired)" % FINDING)
+            elif not vd.rejected:
+                if not any(k == FINDING for k, _ in o.known):
+                    _, pos, reason = vp.rejected[0]
+                    o.known.append((FINDING, "%s at event %d %s (probe: fault-free n=6 run, one member never decides)"
+                                    % (reason, pos, json.dumps(probe_tr[0][pos] if pos < len(probe_tr[0]) else None)[:200])))
+            else:   # rejected for another reason than the finding: standard treatment
+                vlib.conformance(o, FAMILY, "QBFTClusterTrace", cfg_of, PKG, batch[len(sch):], tag="cluster_probe",
+                                 exec_timeout=600, tv_timeout=600, dev_cfgs=[(FINDING, cfg_of_dev)])
+        if fm:
+            fm.result()     # raises what the thread raised (vlib.Infra)
+    o.traces += side.traces
+    o.trace_events += side.trace_events
+    o.trace_states += side.trace_states
+    o.violations += side.violations
+    o.notes += side.notes
+    o.selftests += side.selftests
+    o.extra.update(side.extra)
+    dec = sum(1 for t in main_tr for e in t if e.get("ev") == "Decide")
     fams = {}
-    for t in tr:
+    for t in main_tr:
         fams[t[0].get("family")] = fams.get(t[0].get("family"), 0) + 1
     o.extra["cluster_runs"] = fams
     o.extra["cluster_decisions_observed"] = dec
-    o.extra["cluster_max_round"] = max([e["round"] for t in tr for e in t if e.get("ev") == "Decide"] or [0])
-    if node_traces and not o.violations and os.path.exists(os.path.join(vlib.VERIF, "checks", "conscluster_node.py")):
-        import conscluster_node
-        conscluster_node.validate(o, tr, sch)
-    log("[%s] cluster tier: %d runs, %d decisions, %.0fs" % (o.pid, len(tr), dec, time.time() - t0))
+    o.extra["cluster_max_round"] = max([e["round"] for t in main_tr for e in t if e.get("ev") == "Decide"] or [0])
+    log("[%s] cluster tier: %d runs, %d decisions, %.0fs" % (o.pid, len(main_tr), dec, time.time() - t0))
 
 
 RULE = ("cluster tier: n = 4, 6, 7 real qbft.Consensus components on mocknet inside testing/synctest; fault-free runs for every "
